@@ -1118,6 +1118,15 @@ func (w *walker) call(e *ast.CallExpr) val {
 		return vOpaque{"lo.Ternary form not understood"}
 	}
 	if load.InModule(callee.Pkg()) {
+		// a first-non-nil helper over two errors: firstErr(r.Error(), parseErr) is lo.Ternary(r.Error() != nil, r.Error(), parseErr)
+		if len(e.Args) == 2 && w.isFirstNonNil(callee) {
+			a, aok := w.eval(e.Args[0]).(vErr)
+			b, bok := w.eval(e.Args[1]).(vErr)
+			if aok && bok && a.kind == "reader-error" {
+				return vErr{kind: "ternary", detail: "reader error first, else " + b.detail}
+			}
+			return vOpaque{"first-non-nil helper " + callee.Name() + " not applied to (reader error, other error)"}
+		}
 		// helper taking the reader / writer, or a pure field helper
 		for _, a := range e.Args {
 			switch w.eval(a).(type) {
@@ -1147,6 +1156,50 @@ func (w *walker) call(e *ast.CallExpr) val {
 		return vOpaque{"call of module function " + callee.FullName() + " is not interpreted"}
 	}
 	return vOpaque{"call of " + callee.FullName() + " is not interpreted"}
+}
+
+// isFirstNonNil recognises `func f(a, b error) error { if a != nil { return a }; return b }`.
+func (w *walker) isFirstNonNil(callee *types.Func) bool {
+	decl, pkg := w.x.Prog.FuncDecl(callee)
+	if decl == nil || decl.Body == nil || decl.Recv != nil || len(decl.Body.List) != 2 {
+		return false
+	}
+	var params []types.Object
+	for _, f := range decl.Type.Params.List {
+		for _, n := range f.Names {
+			obj := pkg.TypesInfo.Defs[n]
+			if obj == nil || obj.Type().String() != "error" {
+				return false
+			}
+			params = append(params, obj)
+		}
+	}
+	if len(params) != 2 || decl.Type.Results == nil || len(decl.Type.Results.List) != 1 || len(decl.Type.Results.List[0].Names) > 0 {
+		return false
+	}
+	isParam := func(e ast.Expr, i int) bool {
+		id, ok := e.(*ast.Ident)
+		return ok && pkg.TypesInfo.Uses[id] == params[i]
+	}
+	retOf := func(st ast.Stmt, i int) bool {
+		rs, ok := st.(*ast.ReturnStmt)
+		return ok && len(rs.Results) == 1 && isParam(rs.Results[0], i)
+	}
+	ifs, ok := decl.Body.List[0].(*ast.IfStmt)
+	if !ok || ifs.Init != nil || ifs.Else != nil || len(ifs.Body.List) != 1 {
+		return false
+	}
+	be, ok := ifs.Cond.(*ast.BinaryExpr)
+	if !ok || !isParam(be.X, 0) || !pkg.TypesInfo.Types[be.Y].IsNil() {
+		return false
+	}
+	switch be.Op {
+	case token.NEQ: // if a != nil { return a }; return b
+		return retOf(ifs.Body.List[0], 0) && retOf(decl.Body.List[1], 1)
+	case token.EQL: // if a == nil { return b }; return a
+		return retOf(ifs.Body.List[0], 1) && retOf(decl.Body.List[1], 0)
+	}
+	return false
 }
 
 func isReaderErrNotNil(w *walker, e ast.Expr) bool {
